@@ -50,10 +50,16 @@ ASSUMPTIONS = [
     "asyncio runs create_transports and resolution callbacks as scheduled; their interleaving with other events is an event order of the model",
     "exit sockets come into being through join_circuit (event `join`, real code path with the creator's key unknown / known to the Network under the same or another address); socket removal/close and later address updates of the hop's Peer object are not events of the model",
     "cell handlers other than on_data that on_packet_from_circuit may re-dispatch to (create, extend, ping, ...) do not reach exit_data (checked syntactically: exit_data is referenced from on_data only) and are otherwise outside C06",
-    "own circuits in the harness always have a hop (circuit.hop is never None)",
+    "own circuits in the harness always have a hop (circuit.hop is never None); they are of all four circuit types (DATA, IP_SEEDER, RP_SEEDER, RP_DOWNLOADER)",
 ]
 
 NULL = ("0.0.0.0", 0)
+CTYPES = ["DATA", "IP_SEEDER", "RP_SEEDER", "RP_DOWNLOADER"]      # Circuit.ctype of a circuit this node originated
+
+
+def ctype_of(c) -> str:
+    """circuit type of an own-circuit record (older replays carry an `e2e` flag instead)"""
+    return c["ctype"] if "ctype" in c else ("RP_DOWNLOADER" if c.get("e2e") else "DATA")
 
 
 # ---- the property's traffic classes, restated here from first principles (independent of model and code) ----------
@@ -277,8 +283,8 @@ class Env:
         p.add_address(addr)
         return kind
 
-    def new_circuit(self, cid, ip, port, e2e):
-        c = self.T.Circuit(cid, 1, self.T.CIRCUIT_TYPE_RP_DOWNLOADER if e2e else self.T.CIRCUIT_TYPE_DATA)
+    def new_circuit(self, cid, ip, port, ctype):
+        c = self.T.Circuit(cid, 1, getattr(self.T, "CIRCUIT_TYPE_" + ctype))
         c.add_hop(self.T.Hop(self.peer(ip, port), None))
         self.ov.circuits[cid] = c
         return c
@@ -701,7 +707,8 @@ def gen_history(ctx: Ctx, env: Env, n_events: int):
     circs = []
     if rng.random() < 0.35:
         c = rng.choice([socks[0]["cid"], 555])
-        circs.append({"cid": c, "ip": rng.choice(HOP_IPS[:2]), "port": 5000, "e2e": rng.random() < 0.3})
+        circs.append({"cid": c, "ip": rng.choice(HOP_IPS[:2]), "port": 5000,
+                      "ctype": rng.choice(["DATA", "DATA", "IP_SEEDER", "IP_SEEDER", "RP_SEEDER", "RP_DOWNLOADER"])})
     style = "burst" if rng.random() < 0.15 else "normal"
     if style == "burst":
         flags = [f for f in flags if f not in (env.F_BT, env.F_IPV8)] + rng.choice([[env.F_BT], [env.F_BT, env.F_IPV8]])
@@ -835,7 +842,8 @@ async def run_history(ctx: Ctx, env: Env, h, fixed_events=None):
     cur_flags = list(h["flags"])
     sockobj = {}
     for c in h["circs"]:
-        env.new_circuit(c["cid"], c["ip"], c["port"], c["e2e"])
+        env.new_circuit(c["cid"], c["ip"], c["port"], ctype_of(c))
+        ctx.count("B:own-circuit-type:" + ctype_of(c))
     hopip = {}          # circuit id -> IP the CREATE for that circuit came from (NOT read back from the socket object)
     initial = [dict(s) for s in h["socks"]]
     h["socks"] = []     # sockets come into being through join events (below and, rarely, later in the history)
@@ -843,7 +851,7 @@ async def run_history(ctx: Ctx, env: Env, h, fixed_events=None):
     lines = ["reset %s [%s] [%s] [%s] %d [%s]" % (
         hx(env.pfx), ",".join(map(str, h["flags"])),
         "",
-        ",".join(f"{c['cid']}:{hx(c['ip'].encode())}:{c['port']}:{1 if c['e2e'] else 0}" for c in h["circs"]),
+        ",".join(f"{c['cid']}:{hx(c['ip'].encode())}:{c['port']}:{CTYPES.index(ctype_of(c))}" for c in h["circs"]),
         1 if h.get("tunnel_ep") else 0, ",".join(map(str, env.exit_ids)))]
     impl = ["ok"]
     dns_of = {}         # cid -> list of dns records in flight (model's `pending`)
@@ -1198,25 +1206,26 @@ def run_opening_grid(ctx: Ctx, env: Env, use_model: bool, nested_only: bool = Fa
     # nested DATA cells arriving on an own circuit, naming the exit socket, with the socket's hop address as org_address
     for hop in HOP_IPS[:3]:
         for oip in (hop, FOREIGN_IPS[0]):
-            for e2e in (False, True):
+            for ctype in CTYPES:
+                e2e = ctype.startswith("RP_")
                 for mid in sorted({6, 2, 3, 4, 19, env.EXIT_MSG} | (set(env.declared_exit_ids) if nested_only else set())):
                     if e2e and mid != 6:
                         continue
                     h = {"flags": [env.F_RELAY, env.F_BT], "socks": [{"cid": 77, "ip": hop, "port": 5000}],
-                         "circs": [{"cid": 555, "ip": "192.0.2.55", "port": 4000, "e2e": e2e}], "tunnel_ep": False,
+                         "circs": [{"cid": 555, "ip": "192.0.2.55", "port": 4000, "ctype": ctype}], "tunnel_ep": False,
                          "style": "grid", "n": 1, "events": []}
                     inner = env.pfx + bytes([mid]) + struct.pack(">I", 77) + b"\x00\x4d" + b"\x11" * 38
                     evs = [{"ev": "data", "src": ["192.0.2.55", 4000], "cid": 555, "dest": ["4", "0.0.0.0", 0],
                             "origin": ["6" if ":" in oip else "4", oip, 5000], "data": inner.hex(),
                             "pkind": "nested-exit-message" if mid == env.EXIT_MSG else "nested-circuit-cell"}]
                     lines, impl, stats = env.loop.run_until_complete(run_history(ctx, env, h, fixed_events=evs))
-                    ctx.count(f"G:{env.community}:nested-message-id-{mid}-on-own-circuit" + (":e2e" if e2e else ""))
-                    ctx.case(("G", "nested", mid, hop, oip, e2e), nontrivial=True, n=len(lines) - 1)
+                    ctx.count(f"G:{env.community}:nested-message-id-{mid}-on-own-circuit:" + ctype)
+                    ctx.case(("G", "nested", mid, hop, oip, ctype), nontrivial=True, n=len(lines) - 1)
                     all_lines += lines
                     all_impl += impl
                     owners += [h] * len(lines)
                 h = {"flags": [env.F_RELAY, env.F_BT], "socks": [{"cid": 77, "ip": hop, "port": 5000}],
-                     "circs": [{"cid": 555, "ip": "192.0.2.55", "port": 4000, "e2e": e2e}], "tunnel_ep": False, "style": "grid",
+                     "circs": [{"cid": 555, "ip": "192.0.2.55", "port": 4000, "ctype": ctype}], "tunnel_ep": False, "style": "grid",
                      "n": 4, "events": []}
                 inner = data_packet(env.pfx, 77, ("4", "93.184.216.34", 6881), payload)
                 evs = [{"ev": "data", "src": ["192.0.2.55", 4000], "cid": 555, "dest": ["4", "0.0.0.0", 0],
@@ -1224,8 +1233,8 @@ def run_opening_grid(ctx: Ctx, env: Env, use_model: bool, nested_only: bool = Fa
                        {"ev": "open", "cid": 77, "fam": 4}, {"ev": "open", "cid": 77, "fam": 6}]
                 lines, impl, stats = env.loop.run_until_complete(run_history(ctx, env, h, fixed_events=evs))
                 ctx.count(f"G:{env.community}:nested-data-on-own-circuit:" + ("origin=socket-hop" if oip == hop else "origin=foreign")
-                          + (":e2e" if e2e else ""))
-                ctx.case(("G", "nested", hop, oip, e2e), nontrivial=True, n=len(lines) - 1)
+                          + ":" + ctype)
+                ctx.case(("G", "nested", hop, oip, ctype), nontrivial=True, n=len(lines) - 1)
                 all_lines += lines
                 all_impl += impl
                 owners += [h] * len(lines)
